@@ -9,7 +9,7 @@
 (*                     interleaved vector is the interleaved complex product          *)
 EXTENDS Adapters, Patterns, TLC
 
-CONSTANTS R, C, B, KIND
+CONSTANTS R, C, B, KIND, STEP      \* STEP = 1: every pattern; STEP > 1: every STEP-th mask (quick-tier sample of the big spaces)
 VARIABLES mask, pc, out
 vars == <<mask, pc, out>>
 
@@ -17,7 +17,7 @@ A == MkCrs(R, C, mask, 0, FALSE)                                 \* sorted rows 
 \* Gaussian-integer values for the complex case
 Ac == LET P == MkCrs(R, C, mask, 0, FALSE) IN [P EXCEPT !.val = [p \in 1..NNZ(P) |-> <<P.val[p], PatVal(p, P.col[p], 1)>>]]
 
-Init == mask \in Masks(R, C) /\ pc = "in" /\ out = <<>>
+Init == mask \in {m \in Masks(R, C) : m % STEP = 0} /\ pc = "in" /\ out = <<>>
 Block   == KIND = "block"   /\ pc = "in" /\ pc' = "block"   /\ out' = Materialize(BlockView(A, B)) /\ UNCHANGED mask
 Unblock == KIND = "block"   /\ pc = "block" /\ pc' = "unblock" /\ out' = UnblockRun(out, B) /\ UNCHANGED mask
 Complex == KIND = "complex" /\ pc = "in" /\ pc' = "complex" /\ out' = Materialize(ComplexView(Ac)) /\ UNCHANGED mask
